@@ -5,8 +5,6 @@
 import RdfModel.Props.C11
 open RdfModel
 
-#print axioms RdfModel.C11.factories_not_shared
-#print axioms RdfModel.C11.chain_order
 #print axioms RdfModel.C11.combined_is_union
 #print axioms RdfModel.C11.combined_is_union_clean
 #print axioms RdfModel.C11.combined_init_failure
